@@ -84,6 +84,8 @@ theorem cg_typ {e : Ty} : CG cfg sfh (.typ e) ↔ CG cfg sfh e := by
   unfold CG; conv => lhs; unfold Ty.WF Ty.TA
 theorem cg_iterable {e : Ty} : CG cfg sfh (.iterable e) ↔ CG cfg sfh e := by
   unfold CG; conv => lhs; unfold Ty.WF Ty.TA
+theorem cg_iterator {e : Ty} : CG cfg sfh (.iterator e) ↔ CG cfg sfh e := by
+  unfold CG; conv => lhs; unfold Ty.WF Ty.TA
 theorem cg_notUndef {e : Ty} : CG cfg sfh (.notUndef e) ↔ CG cfg sfh e := by
   unfold CG; conv => lhs; unfold Ty.WF Ty.TA
 theorem cg_variant {ts : List Ty} : CG cfg sfh (.variant ts) ↔ ∀ t ∈ ts, CG cfg sfh t := by
@@ -357,5 +359,10 @@ theorem common_all (hl : ∀ s, (cfg.lower s).length = s.length) (hidem : ∀ s,
       rename_i y
       obtain ⟨g, u1, u2⟩ := ih x y ((cg_iterable cfg sfh).1 ha) ((cg_iterable cfg sfh).1 hb)
       exact ⟨(cg_iterable cfg sfh).2 g, mono_iterable cfg sfh _ _ u1, mono_iterable cfg sfh _ _ u2⟩
+    case iterator x =>
+      cases b <;> simp only [] <;> (try exact tl)
+      rename_i y
+      obtain ⟨g, u1, u2⟩ := ih x y ((cg_iterator cfg sfh).1 ha) ((cg_iterator cfg sfh).1 hb)
+      exact ⟨(cg_iterator cfg sfh).2 g, mono_iterator cfg sfh _ _ u1, mono_iterator cfg sfh _ _ u2⟩
 
 end Pcore.Lat
